@@ -173,7 +173,9 @@ def block_names():
 @functools.lru_cache(maxsize=None)
 def ints():
     return st.one_of(st.integers(-1000, 1000), st.sampled_from(
-        [0, 1, -1, 2 ** 31, -2 ** 63, 2 ** 64, 10 ** 40, -10 ** 25]),
+        [0, 1, -1, 2 ** 31, -2 ** 63, 2 ** 64, 10 ** 40, -10 ** 25,
+         # beyond what a C double holds (float(n) overflows), exact as Python ints
+         2 ** 1024, -(10 ** 309), 10 ** 400 + 7, 2 ** 1023]),
         st.integers(-10 ** 20, 10 ** 20))
 
 
